@@ -962,6 +962,8 @@ NewMarks(l) ==
   \cup (IF a = "Ack" /\ taking THEN {"ackAtTake"} ELSE {})
   \cup (IF a = "Ack" /\ l.i \in DOMAIN ctxs /\ offs[ctxs[l.i].vb] # NoOff /\ offs[ctxs[l.i].vb].seq > ctxs[l.i].off.seq
          THEN {"ackBelowPosition"} ELSE {})
+  \cup (IF a = "Ack" /\ l.i \in DOMAIN ctxs /\ offs[ctxs[l.i].vb] # NoOff /\ offs[ctxs[l.i].vb].seq > ctxs[l.i].off.seq
+            /\ offs[ctxs[l.i].vb].uuid # ctxs[l.i].off.uuid /\ ctxs[l.i].gen = cgen THEN {"ackBelowAcrossBranch"} ELSE {})
   \cup (IF a = "Ack" /\ l.i \in DOMAIN ctxs /\ ~InRange(ctxs[l.i].vb) THEN {"ackOutOfRange"} ELSE {})
   \cup (IF a = "Ack" /\ l.i \in DOMAIN ctxs /\ ctxs[l.i].gen < cgen /\ open THEN {"staleAckNewSession"} ELSE {})
   \cup (IF a = "Ack" /\ l.i \in DOMAIN ctxs /\ ctxs[l.i].off.uuid # ouuid[ctxs[l.i].vb] /\ open /\ ctxs[l.i].gen = cgen
